@@ -80,6 +80,8 @@ def make_cbs(n, m, M, gf, p=1, mode="c09", o3=False):
 
     def run(eng, acc):
         from skchange.anomaly_detectors import CircularBinarySegmentation as CBS
+        from .prelude import prelude
+        prelude("CBS", n, p, m, M)
         try:
             det = CBS(TableLocalScore(p=p), threshold_scale=SymReal(ts), min_segment_length=m,
                       max_interval_length=M, growth_factor=gf)
@@ -151,6 +153,8 @@ def make_cbs(n, m, M, gf, p=1, mode="c09", o3=False):
 
 def _native(n, m, M, gf, p, values, tscale):
     from skchange.anomaly_detectors import CircularBinarySegmentation as CBS
+    from .prelude import prelude
+    prelude("CBS", n, p, m, M)
     with proxy.native():
         det = CBS(TableLocalScore(p=p, values=values), threshold_scale=float(tscale), min_segment_length=m,
                   max_interval_length=M, growth_factor=gf)
